@@ -490,6 +490,15 @@ fn seq_element(rng: &mut Rng, seed: u64, idx: u64, k: u64) -> String {
         "",
         "start",
         "start push r0\n",
+        // letter case: upper-case stack mnemonics (rejected without the flag), then sources whose
+        // first identifier with an upper-case letter is an instruction or a trap
+        "PUSH R0\n",
+        "start PUSH r0\nhalt\n",
+        "Pop r1\nRETS\n",
+        "LEA R0 a\na HALT\n",
+        "HALT\nadd r0 r0 #1\n",
+        "Add R1 R1 #1\nhalt\n",
+        "x CALL x\n",
     ];
     match rng.below(4) {
         0 | 1 => pk2(rng, TEMPLATES).replace("\\n", "\n"),
@@ -521,6 +530,28 @@ pub fn run_seq(o: &crate::Opts) {
     let mut by_len = [0u64; 7];
     let (mut with_reset, mut without_reset, mut fresh_diffs, mut elems, mut failed_elems) = (0u64, 0u64, 0u64, 0u64, 0u64);
     let mut samples: Vec<String> = Vec::new();
+    // histories containing a program with thousands of labels (a table that has grown large must
+    // be emptied by the reset like any other), followed by sources that redefine / reference /
+    // forward-reference some of its names
+    if o.shard == 2 % o.nshards {
+        for (nlabels, reset) in [(5000usize, true), (4000, true), (1200, true), (600, false)] {
+            let mut big = String::new();
+            for k in 0..nlabels {
+                big.push_str(&format!("tbl{} add r0 r0 #0\n", k));
+            }
+            big.push_str("halt\n");
+            let texts: Vec<String> = vec![
+                big.clone(),
+                "tbl100 halt\n".into(),
+                "ld r0 tbl100\nhalt\n".into(),
+                "br tbl7\nadd r0 r0 #1\ntbl7 halt\n".into(),
+                big,
+                "lea r1 tbl0\n".into(),
+            ];
+            let obs = observe_seq(&mut runner, false, reset, &texts);
+            sink.put(&seq_request(false, reset, &texts), &obs);
+        }
+    }
     for idx in 0..total {
         if (idx as usize) % o.nshards != o.shard {
             continue;
